@@ -1237,10 +1237,92 @@ func runC11(c *Ctx) {
 		b := b
 		k.watch(fmt.Sprintf("malformed batch %d", b), 3*time.Minute, func() { k.malformedBatch(b) })
 	}
+	if c.Shard == 1%c.NShards {
+		c.Step("C11 concurrent decodes")
+		k.watch("concurrent decodes", 3*time.Minute, k.concurrentDecodes)
+	}
 	k.flush()
 	c.R.Require("valid:agreed-and-round-tripped", "prefix/short", "prefix/long", "malformed/prefix/must-fail-rejected",
 		"malformed/mutant/must-fail-rejected", "malformed/mutant/rejected", "malformed/random/rejected")
 	if c.Shard == 0 {
 		k.allocProbe()
+	}
+}
+
+// concurrentDecodes: every client connection decodes on its own goroutine. Eight goroutines decode valid bodies (through the
+// bytes.Buffer path that compressed connections take, and the plain one) and compare each result with the reference view,
+// while malformed bodies - batches with an invalid child kind among them - are decoded in between, as a hostile or broken
+// client beside them would make the proxy do. A decoder that shares state between calls shows here and nowhere else.
+func (k *c11) concurrentDecodes() {
+	rng := k.c.Rng(424242)
+	var cases []c11Case
+	var bad []c11Input
+	for i := 0; len(cases) < 90 && i < 2000; i++ {
+		v := gen.Versions[i%len(gen.Versions)]
+		op := []primitive.OpCode{primitive.OpCodeQuery, primitive.OpCodeExecute, primitive.OpCodeBatch}[(i/len(gen.Versions))%3]
+		spec := gen.RandomSpec(rng, v, op, 256, NewTok())
+		spec.Payload = nil
+		if op == primitive.OpCodeExecute {
+			spec.QueryId = []byte{0x81, 0x82, 0x83, 0x84}
+		}
+		if cs, ok := k.build(spec); ok && !cs.in.Flags.Contains(primitive.HeaderFlagCustomPayload) {
+			cases = append(cases, cs)
+			if op == primitive.OpCodeBatch && len(cs.in.Body) > 4 && (cs.in.Body[1] != 0 || cs.in.Body[2] != 0) {
+				m := append([]byte{}, cs.in.Body...)
+				m[3] = 2 // child kind: neither query string (0) nor prepared id (1)
+				bad = append(bad, c11Input{V: cs.in.V, Op: cs.in.Op, Flags: cs.in.Flags, Body: m})
+			}
+		}
+	}
+	if len(cases) < 30 || len(bad) == 0 {
+		k.r.Inconc("c11 concurrent decodes: too few cases")
+		return
+	}
+	rounds := k.c.Pick(3000, 40000)
+	var wg sync.WaitGroup
+	var wrong int64
+	var first atomic.Value
+	for g := 0; g < 8; g++ {
+		wg.Add(1)
+		go func(g int) {
+			defer wg.Done()
+			lr := rand.New(rand.NewSource(int64(g)*7919 + k.c.Seed))
+			for j := 0; j < rounds; j++ {
+				if j%50 == g { // a malformed body now and then; whatever it returns is judged by the sequential part
+					_, _, _ = c11PartialDecode(bad[lr.Intn(len(bad))], j%2 == 0)
+					continue
+				}
+				cs := cases[lr.Intn(len(cases))]
+				body, err, pan := c11PartialDecode(cs.in, j%4 != 3)
+				what := ""
+				switch {
+				case pan != "":
+					what = "panic: " + pan
+				case err != nil:
+					what = "error: " + err.Error()
+				default:
+					if pv, ok := c11ViewOfPartial(body.Message); !ok {
+						what = fmt.Sprintf("message of type %T", body.Message)
+					} else if d := c11Diff(cs.ref, pv); d != "" {
+						what = fmt.Sprintf("field %s: reference %s, partial %s", d, c11Show(cs.ref, d), c11Show(pv, d))
+					}
+				}
+				if what != "" {
+					atomic.AddInt64(&wrong, 1)
+					first.CompareAndSwap(nil, fmt.Sprintf("%s %s: %s", gen.VersionName(cs.in.V), gen.OpName(cs.in.Op), clip(what, 300)))
+					if atomic.LoadInt64(&wrong) > 50 {
+						return
+					}
+				}
+			}
+		}(g)
+	}
+	wg.Wait()
+	k.r.Eval(8 * rounds)
+	k.r.Obs("concurrent_decodes", 8*rounds)
+	if n := atomic.LoadInt64(&wrong); n > 0 {
+		w, _ := first.Load().(string)
+		k.r.Violate(mon.Violation{Signature: "C11/valid-body-misdecoded-under-concurrent-decodes", Detail: fmt.Sprintf("eight goroutines decoded valid bodies (each decodes correctly alone) while malformed bodies were decoded in between: %d wrong outcomes; e.g. %s", n, w),
+			Scenario: map[string]interface{}{"kind": "concurrent-decodes"}})
 	}
 }
